@@ -21,6 +21,7 @@ RULE = ("stream 'shape': random stack shapes (depth 1..6, parallel groups of 1..
         "distinct = distinct (shape, behaviours, op).")
 RULE += (" The stack's loop runs three idle passes before the harness leaves it.")
 RULE += (" stream 'reuse': a layer instance (plain or parallel group) of a first stack handed to a second stack at every position: nothing of the first stack is reachable from the second.")
+RULE += (" Builder scripts (push / pop / pushDefaultLayers in every order, 9 fixed + 40 generated) compared bottom to top with a plain list under the same appends.")
 ASSUMPTIONS = ["layers are seen by the framework through send/receive/onEvent/toLower/toUpper/emitEvent/broadcastEvent only",
                "one thread drives the stack in this check (C11/C12 cover concurrency)"]
 
@@ -549,6 +550,73 @@ def run_helpers(chk):
                 except Exception as e:
                     fails.append(oracle("C18:getDefaultStack-raises:" + type(e).__name__,
                                         "getDefaultStack(axolotl=%s, %s%s): %s: %s" % (ax, kw, ", layer=<cls>" if extra else "", type(e).__name__, e)))
+    fails.extend(run_builder_scripts(chk))
+    return fails
+
+
+def run_builder_scripts(chk):
+    """push / pop / pushDefaultLayers in every order on one builder: the stack built holds, bottom to top, what a plain list
+    holds after the same appends, removals of the last item and extensions by the default layers"""
+    import random
+    fails = []
+    r = random.Random(1807)
+    fixed = [["push", "default"], ["push", "push", "default", "push"], ["default", "push"], ["push", "pop", "default"], ["push", "default", "pop", "push"],
+             ["default", "default"], ["push", "default", "default", "push"], ["pop", "push", "default"], ["default", "pop", "pop", "push"]]
+    scripts = fixed + [[r.choice(["push", "push", "pop", "default"]) for _ in range(r.randrange(1, 7))] for _ in range(40)]
+    defaults = [_names(x) for x in YowStackBuilder.getDefaultLayers()]
+    from gen.defaultlayers import IDS
+
+    def tok(x):      # a slot in the driver's notation
+        if isinstance(x, list):
+            return "P" + ",".join(str(IDS.get(n, 99)) for n in x)
+        return "S%d" % (900 + int(x[6:]) if x.startswith("Pushed") else IDS.get(x, 99))
+    for sc in scripts:
+        chk.hit("builder-script")
+        b = YowStackBuilder()
+        expect = []
+        n = 0
+        try:
+            for op in sc:
+                if op == "push":
+                    n += 1
+                    b.push(type("Pushed%d" % n, (RecLayer,), {"LID": 900 + n}))
+                    expect.append("Pushed%d" % n)
+                elif op == "pop":
+                    b.pop()
+                    expect = expect[:-1]
+                else:
+                    b.pushDefaultLayers()
+                    expect.extend(defaults)
+            if not expect:
+                continue
+            st = b.build()
+            got = []
+            i = 0
+            while True:
+                try:
+                    got.append(_names(st.getLayer(i)))
+                except IndexError:
+                    break
+                i += 1
+            norm = lambda L: [sorted(x) if isinstance(x, list) else x for x in L]
+            # the model's builder on the same calls (pushDefaultLayers = extend by the default layers as getDefaultLayers() of the current source gives them)
+            line, k = [], 0
+            for op in sc:
+                if op == "push":
+                    k += 1
+                    line.append("S%d" % (900 + k))
+                elif op == "pop":
+                    line.append("pop")
+                else:
+                    line.append("E" + ";".join(tok(x) for x in defaults))
+            model = chk.driver.ask("stack builder " + " ".join(line))
+            impl = " ".join(tok(x) for x in got)
+            if impl != model:
+                fails.append(corr("builder", "builder script %s: impl=%s model=%s" % (sc, impl, model)))
+            if norm(got) != norm(expect):
+                fails.append(oracle("C18:builder-script-wrong", "builder script %s: the stack holds, bottom to top, %s; the calls made add up to %s" % (sc, got, expect)))
+        except Exception as e:
+            fails.append(oracle("C18:builder-script-raises:" + type(e).__name__, "builder script %s: %s: %s" % (sc, type(e).__name__, e)))
     return fails
 
 
